@@ -1,6 +1,7 @@
 (* C02 property theorems ONLY (each closed by an already proved lemma) + assumptions. *)
 From Coq Require Import List ZArith Bool Reals Lra Lia.
-From RV Require Import Common.Num Common.RealNum C02.Model C02.Sums C02.Loops C02.Spec C02.Basic C02.Momentum C02.Merc C02.Comp C02.Torque C02.Jacobi C02.Lfun.
+From RV Require Import Common.Num Common.RealNum C02.Model C02.Sums C02.Loops C02.Spec C02.Basic C02.Momentum C02.Merc C02.Comp C02.Torque C02.Jacobi C02.Lfun C02.WHJac C02.SubMap C02.TreeModel C02.TreeWalk.
+From RV Require C15.Tree.
 From RV Require C04.Model C04.Proofs.
 Import ListNotations.
 Open Scope R_scope.
@@ -141,6 +142,99 @@ Theorem C02_L_C4_C5_poly_monotone : forall y1 y2, 0 <= y1 -> y1 <= y2 -> y2 <= 1
   C4poly y1 <= C4poly y2 /\ C5poly y1 <= C5poly y2.
 Proof. intros; split; [now apply C4_mono|now apply C5_mono]. Qed.
 Print Assumptions C02_L_C4_C5_poly_monotone.
+
+(* ---------------- round 3 ---------------- *)
+(* The WHFast composition, in Jacobi coordinates.  Jacc ps c a = component c of C12's forward Jacobi map (the recurrence of
+   reb_particles_transform_inertial_to_jacobi_acc, tied bit-exactly in C12 and again inside C02.WHModel) applied to the
+   acceleration list a; JQ ps i = Jacobi position of particle i; Mf (mass_ ps) (S i) = m_0 + ... + m_i = eta_i;
+   wh_rj3iM = the R instance of the prefactor rji*rj2i*G*eta of reb_whfast_interaction_step (C02.WHModel, tied bit-exactly).
+   For every N, all particles active, no softening, non-vanishing interior mass sums, every component c and every i >= 1:
+     Jacobi(a_JACOBI)_i = Jacobi(a_BASIC with gravity_ignore_terms=1)_i + [i>1] rj3iM * Q_i
+   i.e. the kick WHFast applies with REB_GRAVITY_JACOBI equals the kick it applies with REB_GRAVITY_BASIC + its Jacobi term. *)
+Theorem C02_jacobi_eq_basic_plus_whterm : forall G (ps : list (Part R)),
+  (forall k, (1 <= k < length ps)%nat -> Mf (mass_ ps) k <> 0) ->
+  forall (acc0 : list RV3) bx by_ bz tp c i, length acc0 = length ps -> (1 <= i < length ps)%nat ->
+  nth_d 0 (Jacc ps c (grav_jacobi RNum G ps acc0)) i =
+  nth_d 0 (Jacc ps c (grav_basic RNum G 0 bx by_ bz 0 0 0 1 (length ps) tp ps)) i
+  + (if (1 <? i)%nat then proj c (vscale (wh_rj3iM G 0 (Mf (mass_ ps) (S i)) (JQ ps i)) (JQ ps i)) else 0).
+Proof. exact jacobi_eq_basic_plus_whterm. Qed.
+Print Assumptions C02_jacobi_eq_basic_plus_whterm.
+
+(* MERCURIUS / TRACE with a PROPER encounter sub-map (any list of distinct in-range indices starting with 0; any N).
+   sub_ps / sub_acc / sub_dcrit / sub_Ks = particles, previous accelerations, dcrit, K matrix gathered through the map.
+   (a) on the mapped indices mode 1 computes what the identity-map routine computes on the gathered sub-system, so that
+       L*F + (1-L)*F = F for every pair of the sub-map: mode-0 loops of the sub-system + mode 1 = star term + full pair sum;
+   (b) every particle outside the map keeps its previous acceleration. *)
+Theorem C02_mercurius_submap_parts_sum : forall (G soft : R) (emap : list nat) (encN encNact : nat) (tp : bool)
+    (ps : list (Part R)) (acc0 : list RV3),
+  (forall a b : nat, (a < encN)%nat -> (b < encN)%nat -> nth_d 0%nat emap a = nth_d 0%nat emap b -> a = b) ->
+  nth_d 0%nat emap 0 = 0%nat -> (1 <= encN)%nat -> (encNact <= encN)%nat ->
+  (forall c : nat, (c < encN)%nat -> (nth_d 0%nat emap c < length ps)%nat) -> length acc0 = length ps ->
+  forall (Lf : R -> R -> R) (dcrit : nat -> R) (a : nat), (a < encN)%nat ->
+  vadd (nth_d vzero (grav_merc0 RNum G soft Lf (sub_dcrit emap dcrit) encNact tp (sub_ps emap encN ps)) a)
+       (nth_d vzero (grav_merc1 RNum G soft Lf dcrit emap encN encNact tp ps acc0) (nth_d 0%nat emap a)) =
+  nth_d vzero (pair_loops RNum (pf_basic RNum G) (fun i => i) None (soft * soft) (sub_ps emap encN ps) tp 2 1 encNact encN
+                 (star_loop RNum (fun r m0 => - G / (r * r * r) * m0) (soft * soft) (nth_d 0%nat (seq 0 encN)) encN
+                    (sub_ps emap encN ps) (sub_acc emap encN acc0))) a.
+Proof. exact mercurius_submap_parts_sum. Qed.
+Print Assumptions C02_mercurius_submap_parts_sum.
+Theorem C02_trace_submap_parts_sum : forall (G soft : R) (emap : list nat) (encN encNact : nat) (tp : bool)
+    (ps : list (Part R)) (acc0 : list RV3),
+  (forall a b : nat, (a < encN)%nat -> (b < encN)%nat -> nth_d 0%nat emap a = nth_d 0%nat emap b -> a = b) ->
+  nth_d 0%nat emap 0 = 0%nat -> (1 <= encN)%nat -> (encNact <= encN)%nat ->
+  (forall c : nat, (c < encN)%nat -> (nth_d 0%nat emap c < length ps)%nat) -> length acc0 = length ps ->
+  forall (Ks : nat -> nat -> bool) (a : nat), (a < encN)%nat ->
+  vadd (nth_d vzero (grav_trace0 RNum G soft (sub_Ks emap Ks) encNact tp (sub_ps emap encN ps)) a)
+       (nth_d vzero (grav_trace1 RNum G soft Ks emap encN encNact tp ps acc0) (nth_d 0%nat emap a)) =
+  nth_d vzero (pair_loops RNum (pf_basic RNum G) (fun i => i) None (soft * soft) (sub_ps emap encN ps) tp 2 1 encNact encN
+                 (star_loop RNum (fun r m0 => - G * m0 / (r * r * r)) (soft * soft) (nth_d 0%nat (seq 0 encN)) encN
+                    (sub_ps emap encN ps) (sub_acc emap encN acc0))) a.
+Proof. exact trace_submap_parts_sum. Qed.
+Print Assumptions C02_trace_submap_parts_sum.
+Theorem C02_submap_outside_untouched : forall (G soft : R) (emap : list nat) (encN encNact : nat) (tp : bool)
+    (ps : list (Part R)) (acc0 : list RV3),
+  (forall a b : nat, (a < encN)%nat -> (b < encN)%nat -> nth_d 0%nat emap a = nth_d 0%nat emap b -> a = b) ->
+  nth_d 0%nat emap 0 = 0%nat -> (1 <= encN)%nat -> (encNact <= encN)%nat ->
+  (forall c : nat, (c < encN)%nat -> (nth_d 0%nat emap c < length ps)%nat) -> length acc0 = length ps ->
+  forall k, (k < length ps)%nat -> (forall c, (c < encN)%nat -> nth_d 0%nat emap c <> k) ->
+  (forall Lf dcrit, nth_d vzero (grav_merc1 RNum G soft Lf dcrit emap encN encNact tp ps acc0) k = nth_d vzero acc0 k) /\
+  (forall Ks, nth_d vzero (grav_trace1 RNum G soft Ks emap encN encNact tp ps acc0) k = nth_d vzero acc0 k).
+Proof. intros; split; intros; [now apply merc1_submap_outside|now apply trace1_submap_outside]. Qed.
+Print Assumptions C02_submap_outside_untouched.
+
+(* REB_GRAVITY_TREE (C02.TreeModel.walk = reb_calculate_acceleration_for_particle_from_cell on C15's oct-tree with C15's
+   gdata as node->m,mx,my,mz; tied bit-exactly, accelerations and cell data, for all opening angles).
+   (a) ANY opening angle: the walk adds one monopole term per terminal cell (accepted inner cell: its (m, centre of mass);
+       visited leaf: the particle, nothing for the particle itself), and the leaves of the terminal cells are exactly the leaves
+       of the tree, each once: every particle is counted exactly once, in one visited leaf or one accepted cell.
+       (C15_gravity_data_sums: an accepted cell's m / centre of mass are the sums over exactly those particles.) *)
+Theorem C02_tree_walk_cover : forall (part : nat -> R * R * R * R) (G soft2 theta2 : R) (t : C15.Tree.cell) (w : R) (pt : nat) (gb a : RV3),
+  walk RNum part G soft2 theta2 w t pt gb a = vadd a (VSum (cover part theta2 w t gb) (mono part G soft2 pt gb)) /\
+  flat_map C15.Tree.leaves (cover part theta2 w t gb) = C15.Tree.leaves t.
+Proof. intros; split; [apply walk_cover|apply cover_leaves]. Qed.
+Print Assumptions C02_tree_walk_cover.
+(* (b) opening_angle2 = 0, root size <> 0, every particle index exactly once among the leaves of the forest (C15's once_b,
+       checked on every dumped forest): the TREE routine gives every particle the specified direct sum over all ghost boxes
+       (all particles active, gravity_ignore_terms = 0), for every N, root layout and ghost count. *)
+Theorem C02_tree_theta0_eq_spec : forall (G eps bx by_ bz : R) (nx ny nz : nat) (w : R) (roots : list (option C15.Tree.cell)) (ps : list (Part R)),
+  w <> 0 -> NoDup (forest_leaves roots) -> length (forest_leaves roots) = length ps ->
+  (forall p, In p (forest_leaves roots) -> (p < length ps)%nat) ->
+  forall (tp : bool) (k : nat), (k < length ps)%nat ->
+  nth_d vzero (grav_tree RNum (part_of ps) G (eps * eps) 0 bx by_ bz nx ny nz w roots (length ps)) k =
+  acc_spec G eps bx by_ bz nx ny nz 0 (length ps) tp ps k.
+Proof. intros. apply tree_theta0_eq_spec; auto. now apply once_perm. Qed.
+Print Assumptions C02_tree_theta0_eq_spec.
+
+(* L_infinity (libm exp enters as oracle values e1 = exp(-1/y), e2 = exp(-1/(1-y)), tied bit-exactly with the values of
+   glibc's exp): range [0,1] for any positive oracle values, in particular for the real exponential; 0 below, 1 above. *)
+Theorem C02_L_infinity_range : forall e1 e2 d dc, 0 < e1 -> 0 < e2 -> 0 <= L_infinity RNum e1 e2 d dc <= 1.
+Proof. exact L_infinity_range. Qed.
+Print Assumptions C02_L_infinity_range.
+Theorem C02_L_infinity_exp : forall d dc, let y := L_arg RNum d dc in
+  0 <= L_infinity RNum (exp (- 1 / y)) (exp (- 1 / (1 - y))) d dc <= 1 /\
+  (forall e1 e2, (y < 0 -> L_infinity RNum e1 e2 d dc = 0) /\ (1 < y -> L_infinity RNum e1 e2 d dc = 1)).
+Proof. intros d dc y. split; [apply L_infinity_exp_range|intros; apply L_infinity_outside]. Qed.
+Print Assumptions C02_L_infinity_exp.
 
 (* Non-vacuity: a 4-body system with a zero-mass body, N_active = 2, ignore_terms = 1 meets the hypotheses,
    and the specified sum for the test particle 3 is not trivially zero. *)
